@@ -25,6 +25,7 @@ type Pkg struct {
 	Imports []int    `json:"imports"` // indexes of imported packages
 	Files   []File   `json:"files"`
 	Alias   bool     `json:"alias"`   // importers use an explicit alias
+	Blank   bool     `json:"blank,omitempty"` // importers import it for its side effects only (import _ "path")
 }
 
 type File struct {
@@ -134,6 +135,9 @@ func genCase(rt *rapid.T) *Case {
 	for i := 0; i < n; i++ {
 		name := fmt.Sprintf("p%d", i)
 		p := Pkg{Name: name, Path: rx.Pick(rt, "prefix", prefixes...) + name, Alias: rx.Chance(rt, "alias", 1, 5)}
+		if !p.Alias && i > 0 && rx.Chance(rt, "blank", 1, 4) {
+			p.Blank = true
+		}
 		parts := strings.Split(p.Path, "/")
 		switch rx.Uniform(rt, 4, "place") {
 		case 0:
@@ -242,7 +246,9 @@ func (c *Case) files() map[string]string {
 			}
 			for _, imp := range f.Imports {
 				q := c.Pkgs[imp]
-				if q.Alias {
+				if q.Blank {
+					fmt.Fprintf(&sb, "import _ %q\n", q.Path)
+				} else if q.Alias {
 					fmt.Fprintf(&sb, "import al%d %q\n", imp, q.Path)
 				} else {
 					fmt.Fprintf(&sb, "import %q\n", q.Path)
@@ -278,6 +284,9 @@ func (c *Case) files() map[string]string {
 			}
 			for _, imp := range f.Imports {
 				q := c.Pkgs[imp]
+				if q.Blank {
+					continue
+				}
 				al := q.Name
 				if q.Alias {
 					al = fmt.Sprintf("al%d", imp)
